@@ -531,6 +531,18 @@ func c19Run(c *fw.Ctx, i int) {
 		defer os.RemoveAll(sandbox)
 		in := filepath.Join(sandbox, "in.ged")
 		os.WriteFile(in, []byte(text), 0o644)
+		// Every second run the output directory is not empty: it holds longer
+		// files under the names that are about to be written (an earlier, larger
+		// publish). What is published now must replace them completely.
+		if i%2 == 1 {
+			c.Count("cli-runs-into-a-used-directory", 1)
+			for name, body := range base.Files {
+				if strings.ContainsAny(name, "/\\\x00") || name == "." || name == ".." || name == "" {
+					continue
+				}
+				os.WriteFile(filepath.Join(out, name), append(append([]byte{}, body...), bytes.Repeat([]byte("<!-- left over from an earlier publish -->\n"), 50)...), 0o644)
+			}
+		}
 		args := []string{"publish", "-gedcom", in, "-output-dir", out, "-living", string(vis), "-jobs", "4"}
 		for bit, flag := range []string{"-no-individuals", "-no-places", "-no-families", "-no-surnames", "-no-sources", "-no-statistics"} {
 			if mask&(1<<uint(bit)) == 0 {
